@@ -39,7 +39,8 @@ ASSUMPTIONS = ['finite float inputs (no NaN/inf); frames 0-d, or 2-d with positi
                'seed is an int or a list of ints (seed=None is non-deterministic by definition and excluded)',
                'binary masks for power_spectrum; comparison tolerance 1e-12 relative there (sqrt, FFT), exact elsewhere',
                'Gaussian shot noise: non-negativity only claimed in the documented large-count regime (lambda >= 1000)']
-RULE = ('corpus first, then per function (shot poisson/gaussian, read, dark, power_spectrum) random (seed, shape, parameter) '
+RULE = ('corpus first, then call sequences (2-4 calls in one interpreter state, one argument changed per step, each call compared '
+        'with the model on its own draw and with the same call made first after a module reset / in a new process), then per function (shot poisson/gaussian, read, dark, power_spectrum) random (seed, shape, parameter) '
         'combinations, square and non-square, including refused inputs (negative, above the bound); every seeded call is made '
         'under two different global generator states and twice; cosmic_rays under many global generator states; '
         'non-trivial = more than one sample and (for seeded functions) a draw is actually used')
@@ -286,7 +287,107 @@ def rnd_counts(rng, n, m, method):
     return img
 
 
+PS_PIXELSCALES = [1.0, 1 / 64, 1 / 256, 0.01, 0.3]
+PS_HPFS = [1.0, 5.0, 8.0, 20.0, 2.5]
+PS_EXPS = [1.0, 2.0, 3.0, 2.5, 11 / 3]
+PS_RMS = [1.0, 50e-9, 25e-9, 2.5, -3e-8]
+
+
+def other(rng, pool, cur):
+    return rng.choice([v for v in pool if v != cur])
+
+
+def vary(rng, c):
+    """a copy of the seeded case c with exactly ONE argument changed (shapes stay equal)"""
+    d = {k: (v if not isinstance(v, list) else [list(r) if isinstance(r, list) else r for r in v]) for k, v in c.items()}
+    op = c['op']
+    if op == 'ps':
+        f = rng.choice(['pixelscale', 'pixelscale', 'hpf', 'exp', 'rms', 'seed', 'mask'])
+        if f == 'pixelscale':
+            d['pixelscale'] = other(rng, PS_PIXELSCALES, c['pixelscale'])
+        elif f == 'hpf':
+            d['hpf'] = other(rng, PS_HPFS, c['hpf'])
+        elif f == 'exp':
+            d['exp'] = other(rng, PS_EXPS, c['exp'])
+        elif f == 'rms':
+            d['rms'] = other(rng, PS_RMS, c['rms'])
+        elif f == 'seed':
+            d['seed'] = rnd_seed(rng)
+        else:
+            i, j = rng.randrange(len(d['mask'])), rng.randrange(len(d['mask'][0]))
+            d['mask'][i][j] = 1 - d['mask'][i][j]
+    elif op == 'shot':
+        f = rng.choice(['seed', 'seed', 'method', 'img'])
+        if f == 'seed':
+            d['seed'] = rnd_seed(rng)
+        elif f == 'method':
+            d['method'] = 'gaussian' if c['method'] == 'poisson' else 'poisson'
+        else:
+            i, j = rng.randrange(len(d['img'])), rng.randrange(len(d['img'][0]))
+            d['img'][i][j] = d['img'][i][j] * 2 + 3.0
+    elif op == 'read':
+        f = rng.choice(['seed', 'seed', 'electrons', 'img'])
+        if f == 'seed':
+            d['seed'] = rnd_seed(rng)
+        elif f == 'electrons':
+            d['electrons'] = other(rng, [0.0, 1.0, 2.5, 10.0, 100.0], c['electrons'])
+        else:
+            i, j = rng.randrange(len(d['img'])), rng.randrange(len(d['img'][0]))
+            d['img'][i][j] = d['img'][i][j] + 17.5
+    elif op == 'dark':
+        f = rng.choice(['seed', 'seed', 'rate', 'fpn'])
+        if f == 'seed':
+            d['seed'] = rnd_seed(rng)
+        elif f == 'rate':
+            d['rate'] = other(rng, [0.3, 7.0, 100.0, 100.7, 1234.5], c['rate'])
+        else:
+            d['fpn'] = other(rng, [0.0, 0.1, 0.25, 0.4], c['fpn'])
+    return d
+
+
+def sequences(rng, tier):
+    """call-sequence (history) cases: 2-4 calls in one interpreter state on equal shapes, one argument changed per step,
+    sometimes returning to the first call"""
+    kp, ko = (24, 8) if tier == 'quick' else (240, 80)
+    nsub = 3 if tier == 'quick' else 12
+    plans = [('ps', kp), ('shot', ko), ('read', ko), ('dark', ko)]
+    for op, cnt in plans:
+        for q in range(cnt):
+            if op == 'ps':
+                n, m = rnd_shape(rng, 8)
+                n, m = max(n, 2), max(m, 3)
+                mask = [[1 if rng.random() < 0.7 else 0 for _ in range(m)] for _ in range(n)]
+                mask[0][0] = 1
+                base = {'op': 'ps', 'seed': rnd_seed(rng), 'mask': mask, 'mask_dtype': rng.choice(['float', 'int', 'bool']),
+                        'pixelscale': rng.choice(PS_PIXELSCALES), 'rms': rng.choice(PS_RMS), 'hpf': rng.choice(PS_HPFS),
+                        'exp': rng.choice(PS_EXPS)}
+            elif op == 'shot':
+                n, m = rnd_shape(rng, 4)
+                base = {'op': 'shot', 'method': rng.choice(['poisson', 'gaussian']), 'seed': rnd_seed(rng),
+                        'img': [[rng.choice([0.0, 2.5, 40.0, 1e3, 1e6]) + rng.randint(0, 9) for _ in range(m)] for _ in range(n)]}
+            elif op == 'read':
+                n, m = rnd_shape(rng, 4)
+                base = {'op': 'read', 'seed': rnd_seed(rng), 'electrons': rng.choice([1.0, 2.5, 10.0]),
+                        'img': [[float(rng.randint(0, 200)) for _ in range(m)] for _ in range(n)]}
+            else:
+                n, m = rnd_shape(rng, 4)
+                base = {'op': 'dark', 'seed': rnd_seed(rng), 'rate': rng.choice([7.0, 100.0, 100.7]), 'shape': [n, m],
+                        'fpn': rng.choice([0.1, 0.25, 0.4, 0.0])}
+            if rng.random() < 0.15:
+                base['seed'] = 0           # the falsy seed
+            calls = [base]
+            for _ in range(rng.randint(1, 3)):
+                calls.append(vary(rng, calls[-1]))
+            if len(calls) < 4 and rng.random() < 0.4:
+                calls.append(dict(calls[0]))          # back to the first call: must reproduce it
+            c = {'op': 'seq', 'calls': calls}
+            if op == 'ps' and q < nsub:
+                c['subprocess'] = True
+            yield c
+
+
 def generate(rng, tier):
+    yield from sequences(rng, tier)
     k = 40 if tier == 'quick' else 400
     for _ in range(k):        # shot noise, both methods
         for method in ('poisson', 'gaussian'):
@@ -347,6 +448,8 @@ def generate(rng, tier):
 
 
 def classify(c):
+    if c['op'] == 'seq':
+        return 'seq/' + c['calls'][0]['op']
     if c['op'] == 'shot':
         img = as2d(c['img'])
         k = 'neg' if img.min() < 0 else ('big' if img.max() > LAM_MAX else 'ok')
@@ -358,6 +461,8 @@ def classify(c):
 
 def nontrivial(c):
     op = c['op']
+    if op == 'seq':
+        return len(c['calls']) > 1
     if op == 'shot':
         img = as2d(c['img'])
         return img.size > 1 and img.min() >= 0 and img.max() <= LAM_MAX and img.max() > 0
@@ -374,6 +479,14 @@ def nontrivial(c):
 # ------------------------------------------------------------------ model side
 def encode(c):
     op = c['op']
+    if op == 'seq':
+        parts = [encode(sub) for sub in c['calls']]
+        if any(e is None for e in parts):
+            return None
+        out = [7]
+        for e in parts:
+            out += [len(e)] + e
+        return out
     if op == 'shot':
         img = img_of(c)
         d = shot_draw(c)
@@ -418,6 +531,15 @@ def rd_arr_q(rd):
 
 
 def decode(c, ints):
+    if c['op'] == 'seq':
+        assert ints[0] == 0
+        pos, outs = 1, []
+        for sub in c['calls']:
+            ln = ints[pos]
+            outs.append(decode(sub, ints[pos + 1:pos + 1 + ln]))
+            pos += 1 + ln
+        assert pos == len(ints)
+        return {'calls': outs}
     rd = C.Reader(ints, 1)
     st = rd.z()
     if st == 1:
@@ -439,27 +561,98 @@ def decode(c, ints):
 
 
 # ------------------------------------------------------------------ implementation side
-def run_impl(c):
+def fresh_state():
+    """put the lentil modules that hold the stochastic models back into their just-imported state (module-level
+    caches, module-level generators, ... are re-created), so that a case never depends on the cases run before it"""
+    import importlib
+    lentil = C.import_lentil()
+    importlib.reload(lentil.wfe)
+    importlib.reload(lentil.detector)
+    return lentil
+
+
+def call_of(c):
+    """the public-API call of a seeded case as a zero-argument function (attributes are resolved at call time)"""
     lentil = C.import_lentil()
     op = c['op']
     if op == 'shot':
         img = img_of(c)
-        return seeded_call(lambda: lentil.detector.shot_noise(img.copy(), method=c['method'], seed=seed_of(c)))
+        return lambda: lentil.detector.shot_noise(img.copy(), method=c['method'], seed=seed_of(c))
     if op == 'read':
         img = img_of(c)
-        return seeded_call(lambda: lentil.detector.read_noise(img.copy(), c['electrons'], seed=seed_of(c)))
+        return lambda: lentil.detector.read_noise(img.copy(), c['electrons'], seed=seed_of(c))
     if op == 'dark':
         if c['shape'] is None:
-            return seeded_call(lambda: lentil.detector.dark_current(c['rate'], fpn_factor=c['fpn'], seed=seed_of(c)))
-        return seeded_call(lambda: lentil.detector.dark_current(c['rate'], tuple(c['shape']), c['fpn'], seed=seed_of(c)))
+            return lambda: lentil.detector.dark_current(c['rate'], fpn_factor=c['fpn'], seed=seed_of(c))
+        return lambda: lentil.detector.dark_current(c['rate'], tuple(c['shape']), c['fpn'], seed=seed_of(c))
     if op == 'ps':
         dt = {'float': float, 'int': int, 'bool': bool}[c.get('mask_dtype', 'float')]
         mask = np.array(c['mask'], dtype=dt)
-        return seeded_call(lambda: lentil.wfe.power_spectrum(mask.copy(), c['pixelscale'], c['rms'], c['hpf'], c['exp'],
-                                                             seed=seed_of(c)))
+        return lambda: lentil.wfe.power_spectrum(mask.copy(), c['pixelscale'], c['rms'], c['hpf'], c['exp'], seed=seed_of(c))
     if op == 'rule07':
-        return seeded_call(lambda: lentil.detector.rule07_dark_current(c['temperature'], c['cutoff'], c['pixelscale'],
-                                                                       tuple(c['shape']), c['fpn'], seed=seed_of(c)))
+        return lambda: lentil.detector.rule07_dark_current(c['temperature'], c['cutoff'], c['pixelscale'],
+                                                           tuple(c['shape']), c['fpn'], seed=seed_of(c))
+    raise ValueError(op)
+
+
+def plain_result(c):
+    """one call, nothing else (used in a fresh interpreter): floats as hex strings, exact"""
+    r = _try(call_of(c))
+    if r[0] == 'err':
+        return {'err': r[1]}
+    return {'hex': [float(v).hex() for v in r[1].ravel().tolist()], 'shape': list(r[1].shape)}
+
+
+def subprocess_result(c):
+    """the same call as the FIRST call of a brand-new Python process"""
+    import json
+    import os
+    import subprocess
+    import sys
+    code = ('import json,sys\nfrom harness.props import c18\n'
+            'print("RESULT " + json.dumps(c18.plain_result(json.loads(sys.stdin.read()))))')
+    env = dict(os.environ, PYTHONPATH=f'{C.REPO}:{C.ROOT}', PYTHONDONTWRITEBYTECODE='1')
+    p = subprocess.run([sys.executable, '-W', 'ignore', '-c', code], input=json.dumps(c), env=env, cwd=C.ROOT,
+                       stdout=subprocess.PIPE, stderr=subprocess.PIPE, text=True, timeout=300)
+    for line in p.stdout.splitlines():
+        if line.startswith('RESULT '):
+            j = json.loads(line[7:])
+            if 'err' in j:
+                return ('err', j['err'], '')
+            return ('ok', np.array([float.fromhex(h) for h in j['hex']], dtype=float).reshape(j['shape']))
+    raise RuntimeError('fresh interpreter failed: ' + p.stderr[-600:])
+
+
+def as_tuple(res):
+    return ('err', res['err'], '') if 'err' in res else ('ok', np.array(res['out'], dtype=float).reshape(res['shape']))
+
+
+def run_seq(c):
+    """2-4 calls in ONE interpreter state, in order; then every call again as the first call after a reset
+    (and, for flagged cases, as the first call of a new process)"""
+    fresh_state()
+    seq = [seeded_call(call_of(sub)) for sub in c['calls']]
+    same, same_sub = [], []
+    for sub, r in zip(c['calls'], seq):
+        fresh_state()
+        same.append(bool(_same(as_tuple(r), _try(call_of(sub)))))
+    if c.get('subprocess'):
+        for sub, r in zip(c['calls'], seq):
+            same_sub.append(bool(_same(as_tuple(r), subprocess_result(sub))))
+    fresh_state()
+    res = {'calls': seq, 'same_as_fresh': same}
+    if c.get('subprocess'):
+        res['same_as_new_process'] = same_sub
+    return res
+
+
+def run_impl(c):
+    op = c['op']
+    if op == 'seq':
+        return run_seq(c)
+    lentil = fresh_state()
+    if op in ('shot', 'read', 'dark', 'ps', 'rule07'):
+        return seeded_call(call_of(c))
     if op == 'cosmic':
         saved = np.random.get_state()
         try:
@@ -482,6 +675,12 @@ def flat(x):
 
 def compare(c, impl, model):
     op = c['op']
+    if op == 'seq':
+        for k, (sub, ri, rm) in enumerate(zip(c['calls'], impl['calls'], model['calls'])):
+            msg = compare(sub, ri, rm)
+            if msg:
+                return f'call {k} of the sequence (model fed with the draw of that call): {msg}'
+        return None
     if ('err' in impl) != ('err' in model):
         return (f'implementation {"raised " + impl["err"] if "err" in impl else "returned a value"}, '
                 f'model {"raised " + model["err"] if "err" in model else "returned a value"}')
@@ -549,6 +748,20 @@ def compare(c, impl, model):
 # ------------------------------------------------------------------ direct property oracle (no model)
 def oracle(c, impl):
     op = c['op']
+    if op == 'seq':
+        for k, ok in enumerate(impl['same_as_fresh']):
+            if not ok:
+                return (f'call {k} of the sequence gives a different result than the same call made first after a reset of the '
+                        'module state: the result depends on the call history, not only on the arguments and the seed')
+        for k, ok in enumerate(impl.get('same_as_new_process', [])):
+            if not ok:
+                return (f'call {k} of the sequence gives a different result than the same call made first in a new Python '
+                        'process: the result depends on the call history, not only on the arguments and the seed')
+        for k, (sub, ri) in enumerate(zip(c['calls'], impl['calls'])):
+            msg = oracle(sub, ri)
+            if msg:
+                return f'call {k} of the sequence: {msg}'
+        return None
     if op == 'shot':
         msg = common_oracle(impl, 'shot_noise')
         if msg:
